@@ -484,7 +484,11 @@ func (c *Ctx) loadHistoryCheck() {
 		refs = append(refs, ref{len(fresh), len(hist)})
 		for _, set := range hist {
 			parts = append(parts, hexAll(set))
-			fresh = append(fresh, "loadcanon "+hexAll(set))
+			if i%2 == 1 {
+				fresh = append(fresh, "loadcanonb "+hexAll(set)) // the same BuiltIn marks as loadhistb
+			} else {
+				fresh = append(fresh, "loadcanon "+hexAll(set))
+			}
 		}
 		if i%2 == 1 {
 			reqs = append(reqs, "loadhistb "+strings.Join(parts, " | "))
